@@ -1,6 +1,7 @@
 import RadicaleProofs.SyncInv
 import RadicaleProofs.SyncLive
 import RadicaleProofs.SyncIdem
+import RadicaleProofs.SyncEnc
 /-
   C07 — sync-token deltas always bring a client to the server's current state.
 
@@ -162,6 +163,17 @@ theorem c07_propfind_after_report (cfg : Cfg) (hmax : cfg.maxAge ≠ 0) (ops0 : 
   simp only [sync]
   rw [hst, ← hT]
   exact ⟨_, rfl⟩
+
+/-- the string hashed into a token name determines the state dictionary (hrefs without "/", 64-digit history
+    tags), and the string hashed into a history tag determines (previous tag, etag): with SHA-256 injective, equal
+    token names / tags mean equal structures — the symbolic `Snapshot` / `HTag` of the model -/
+theorem c07_token_name_input_injective (l l' : List (SyncEnc.Str × SyncEnc.Str))
+    (hl : ∀ p ∈ l, SyncEnc.EntryOk p) (hl' : ∀ p ∈ l', SyncEnc.EntryOk p) (h : SyncEnc.enc l = SyncEnc.enc l') : l = l' :=
+  SyncEnc.enc_injective l l' hl hl' h
+
+theorem c07_history_tag_input_injective (t t' e e' : SyncEnc.Str) (ht : '/' ∉ t) (ht' : '/' ∉ t')
+    (h : t ++ '/' :: e = t' ++ '/' :: e') : t = t' ∧ e = e' :=
+  SyncEnc.chain_input_injective t t' e e' ht ht' h
 
 /-- a malformed token is refused before anything is read or written -/
 theorem c07_malformed_refused (cfg : Cfg) (s : State) : sync cfg s .malformed = (s, .refused) := rfl
